@@ -132,6 +132,271 @@ def install_rrset(R):
 
 
 
+def install_answers(R):
+    """The per-strategy answer builders: which records answer a strategy (C03), with the service's OWN current records
+    (record builders of contracts/c09.py: memo soundness) minus known answers with more than half the TTL."""
+    AT = 'dict[DNSRecord, set[DNSRecord]]'
+    KEYS = 'forall("i:ident", lambda i: implies(answer_set.has(i), answer_set.keyobj(i) is not None and ident(answer_set.keyobj(i)) == i))'
+    SVC_OK = ('forall("j:int", lambda j: implies(0 <= j and j < len(services), services[j] is not None and allocated(services[j]) and memo_ok(services[j]) '
+              '   and services[j].other_ttl >= 0 and services[j].host_ttl >= 0))')
+    KNOWN = ('exists("m:int", lambda m: 0 <= m and m < len(known_answers._records) and ident(known_answers._records[m]) == %s '
+             'and known_answers._records[m].ttl > %s / 2)')
+    PI = 'ptr_ident(services[j])'
+    from pyvc.types import IDENT, lower
+    from contracts.records import mk_ident, rd_cons
+    rd_ptr = rd_cons('RD_Ptr')[0]
+    R.spec('ptrid', [('name', 'str'), ('alias', 'str')], 'ident',
+           lambda ex, st, name, alias: Sc(mk_ident(z3.IntVal(3), lower(ex.term(name, st)), z3.IntVal(12), z3.IntVal(1), rd_ptr(lower(ex.term(alias, st)))), IDENT),
+           concrete=_c_ptrid)
+    R.spec('ptr_ident', [('s', 'ServiceInfo')], 'ident', 'ptrid(s.type, s._name)')
+    MODS = ['answer_set', 'known_answers._lookup', 'ServiceInfo._dns_pointer_cache[*]', 'ServiceInfo._dns_service_cache[*]', 'ServiceInfo._dns_text_cache[*]']
+    R.contract(Q, 'QueryHandler._add_pointer_answers', P,
+               params={'services': 'list[ServiceInfo]', 'answer_set': AT, 'known_answers': 'DNSRRSet'},
+               requires=[SVC_OK, KEYS, 'known_answers is not None and rrset_ok(known_answers)'],
+               modifies=MODS,
+               ensures=[KEYS, 'rrset_ok(known_answers)',
+                        'forall("i:ident", lambda i: implies(old(answer_set.has(i)), answer_set.has(i)))',
+                        # only pointers of the given services are offered: <type> -> <instance>, class IN without cache-flush, the service\'s TTL
+                        'forall("i:ident", lambda i: implies(answer_set.has(i) and not old(answer_set.has(i)), exists("j:int", lambda j: 0 <= j and j < len(services) '
+                        '   and i == %s and cls_is(answer_set.keyobj(i), DNSPointer) and answer_set.keyobj(i).ttl == services[j].other_ttl '
+                        '   and as_(answer_set.keyobj(i), DNSPointer).alias == services[j]._name and answer_set.keyobj(i).name == services[j].type '
+                        '   and not answer_set.keyobj(i).unique)))' % PI,
+                        # and every one of them, unless the querier lists it as known with more than half of that TTL
+                        'forall("j:int", lambda j: implies(0 <= j and j < len(services) and not %s, answer_set.has(%s)))' % (KNOWN % (PI, 'services[j].other_ttl'), PI),
+                        # additionals of a pointer: only that service's own SRV, TXT, address and NSEC records
+                        'forall("i:ident, k:ident", lambda i, k: implies(answer_set.has(i) and not old(answer_set.has(i)) and answer_set[i].has(k), exists("j:int", lambda j: 0 <= j and j < len(services) and i == ptr_ident(services[j])    and (answer_set[i].keyobj(k) is services[j]._dns_service_cache or answer_set[i].keyobj(k) is services[j]._dns_text_cache         or ((k.type == 1 or k.type == 28 or k.type == 47) and answer_set[i].keyobj(k) is not None and answer_set[i].keyobj(k).ttl == services[j].host_ttl)))))'],
+               loops={0: Loop(inv=[KEYS, 'rrset_ok(known_answers)', SVC_OK.replace('services[j]', '_it0[j]').replace('len(services)', 'len(_it0)'), 'list_eq(_it0, services)',
+                                   'forall("i:ident", lambda i: implies(old(answer_set.has(i)), answer_set.has(i)))',
+                                   'forall("i:ident", lambda i: implies(answer_set.has(i) and not old(answer_set.has(i)), exists("j:int", lambda j: 0 <= j and j < _k0 '
+                                   '   and i == %s and cls_is(answer_set.keyobj(i), DNSPointer) and answer_set.keyobj(i).ttl == services[j].other_ttl '
+                                   '   and as_(answer_set.keyobj(i), DNSPointer).alias == services[j]._name and answer_set.keyobj(i).name == services[j].type '
+                                   '   and not answer_set.keyobj(i).unique)))' % PI,
+                                   'forall("j:int", lambda j: implies(0 <= j and j < _k0 and not %s, answer_set.has(%s)))' % (KNOWN % (PI, 'services[j].other_ttl'), PI),
+                                   'forall("i:ident, k:ident", lambda i, k: implies(answer_set.has(i) and not old(answer_set.has(i)) and answer_set[i].has(k), exists("j:int", lambda j: 0 <= j and j < _k0 and i == ptr_ident(services[j])    and (answer_set[i].keyobj(k) is services[j]._dns_service_cache or answer_set[i].keyobj(k) is services[j]._dns_text_cache         or ((k.type == 1 or k.type == 28 or k.type == 47) and answer_set[i].keyobj(k) is not None and answer_set[i].keyobj(k).ttl == services[j].host_ttl)))))',
+                                   'list_eq(known_answers._records, old(known_answers._records))',
+                                   'forall("j:int", lambda j: implies(0 <= j and j < len(services), services[j].other_ttl == old(services[j].other_ttl) '
+                                   '   and services[j]._name == old(services[j]._name) and services[j].type == old(services[j].type)))'],
+                              modifies=MODS)})
+
+    # ---- type enumeration: one PTR  _services._dns-sd._udp.local. -> <type>  per listed type, TTL 4500 ------------------------------------
+    EI = 'ptrid(%s, types[j])' % ENUM
+    NEWE = ('forall("i:ident", lambda i: implies(answer_set.has(i) and not old(answer_set.has(i)), exists("j:int", lambda j: 0 <= j and j < %s '
+            '   and i == %s and cls_is(answer_set.keyobj(i), DNSPointer) and answer_set.keyobj(i).ttl == 4500 '
+            '   and as_(answer_set.keyobj(i), DNSPointer).alias == types[j] and not answer_set.keyobj(i).unique)))')
+    ALLE = 'forall("j:int", lambda j: implies(0 <= j and j < %s and not %s, answer_set.has(%s)))'
+    R.contract(Q, 'QueryHandler._add_service_type_enumeration_query_answers', P,
+               params={'types': 'list[str]', 'answer_set': AT, 'known_answers': 'DNSRRSet'},
+               requires=[KEYS, 'known_answers is not None and rrset_ok(known_answers)'],
+               modifies=['answer_set', 'known_answers._lookup'],
+               ensures=[KEYS, 'rrset_ok(known_answers)', 'forall("i:ident", lambda i: implies(old(answer_set.has(i)), answer_set.has(i)))',
+                        NEWE % ('len(types)', EI), ALLE % ('len(types)', KNOWN % (EI, '4500'), EI)],
+               loops={0: Loop(inv=[KEYS, 'rrset_ok(known_answers)', 'list_eq(_it0, types)',
+                                   'forall("i:ident", lambda i: implies(old(answer_set.has(i)), answer_set.has(i)))',
+                                   NEWE % ('_k0', EI), ALLE % ('_k0', KNOWN % (EI, '4500'), EI),
+                                   'list_eq(known_answers._records, old(known_answers._records))'],
+                              modifies=['answer_set', 'known_answers._lookup'])})
+    # ---- address answers ------------------------------------------------------------------------------------------------------------------
+    I_ = 'zeroconf._services.info'
+    from pyvc.types import Ref as _Ref
+    _hat = z3.Function('has_addr_type', _Ref, z3.IntSort(), z3.BoolSort())
+    R.spec('has_addr_type', [('s', 'ServiceInfo'), ('t', 'int')], 'bool',
+           lambda ex, st, s, t: Sc(_hat(s.term, ex.num(t, st)[0]), BOOL),
+           concrete=lambda s, t: any(a.type == t for a in s._dns_addresses(None, __import__('zeroconf')._utils.net.IPVersion.All)))
+    R.contract(I_, 'ServiceInfo._dns_addresses', P, params={'override_ttl': 'optint', 'version': 'object'}, returns='list[DNSAddress]',
+               trusted=True, modifies=[], raises={},
+               ensures=['forall("j:int", lambda j: implies(0 <= j and j < len(result), result[j] is not None and cls_is(result[j], DNSAddress) '
+                        '   and allocated(result[j]) and (result[j].type == 1 or result[j].type == 28) and result[j].class_ == 1 and result[j].unique '
+                        '   and result[j].ttl == ttl_or(override_ttl, self.host_ttl) and result[j].key == self.server_key))',
+                        # has_addr_type(s, t): the service has an address of record type t (ghost name for what this list shows)
+                        'has_addr_type(self, 1) == exists("j:int", lambda j: 0 <= j and j < len(result) and result[j].type == 1)',
+                        'has_addr_type(self, 28) == exists("j:int", lambda j: 0 <= j and j < len(result) and result[j].type == 28)'],
+               note='list comprehension over ipaddress objects (outside the engine): one DNSAddress per address of the host, named after the server, '
+                    'type A or AAAA, class IN with cache-flush, host TTL or the override')
+    R.contract(I_, 'ServiceInfo._dns_nsec', P, params={'missing_types': 'list[int]', 'override_ttl': 'optint'}, returns='DNSNsec',
+               trusted=True, modifies=[], raises={},
+               ensures=['result is not None and fresh_obj(result) and cls_is(result, DNSNsec) and result.type == 47 and result.unique',
+                        'result.ttl == ttl_or(override_ttl, self.host_ttl) and result.name == self._name'],
+               note='one DNSNsec constructor call (rdtypes list outside the record model)')
+    R.stubs[Q + ':_IPVersion_ALL'] = lambda ex, st, frame: PyConst('IPVersion.All')
+    NEWA = ('forall("i:ident", lambda i: implies(answer_set.has(i) and not old(answer_set.has(i)), exists("j:int", lambda j: 0 <= j and j < %s '
+            '   and answer_set.keyobj(i).ttl == services[j].host_ttl and answer_set.keyobj(i).unique '
+            '   and ((i.type == type_ and (i.type == 1 or i.type == 28) and i.key == services[j].server_key) or (i.type == 47 and i.key == lower(services[j]._name) and (type_ == 1 or type_ == 28) and not has_addr_type(services[j], type_))))))')
+    AMODS = ['answer_set', 'known_answers._lookup']
+    R.contract(Q, 'QueryHandler._add_address_answers', P,
+               params={'services': 'list[ServiceInfo]', 'answer_set': AT, 'known_answers': 'DNSRRSet', 'type_': 'int'},
+               requires=[SVC_OK, KEYS, 'known_answers is not None and rrset_ok(known_answers)',
+                         'forall("j:int", lambda j: implies(0 <= j and j < len(services), services[j].server is not None))'],
+               modifies=AMODS, raises={},
+               ensures=[KEYS, 'rrset_ok(known_answers)', 'forall("i:ident", lambda i: implies(old(answer_set.has(i)), answer_set.has(i)))',
+                        # only address records of the asked type (or the NSEC record saying that type does not exist) of the given services, host TTL
+                        NEWA % 'len(services)'],
+               loops={0: Loop(inv=[KEYS, 'rrset_ok(known_answers)', 'list_eq(_it0, services)',
+                                   'forall("i:ident", lambda i: implies(old(answer_set.has(i)), answer_set.has(i)))', NEWA % '_k0',
+                                   'list_eq(known_answers._records, old(known_answers._records))'],
+                              modifies=AMODS),
+                      1: Loop(inv=['rrset_ok(known_answers)', 'list_eq(known_answers._records, old(known_answers._records))',
+                                   'forall("m:int", lambda m: implies(0 <= m and m < len(answers), answers[m] is not None and cls_is(answers[m], DNSAddress) '
+                                   '   and allocated(answers[m]) and answers[m].type == type_ and answers[m].unique '
+                                   '   and answers[m].ttl == service.host_ttl and answers[m].key == service.server_key))',
+                                   'implies(len(answers) > 0, type_ == 1 or type_ == 28)',
+                                   'seen_types.has(1) == exists("m:int", lambda m: 0 <= m and m < _k1 and _it1[m].type == 1)',
+                                   'seen_types.has(28) == exists("m:int", lambda m: 0 <= m and m < _k1 and _it1[m].type == 28)',
+                                   'has_addr_type(service, 1) == exists("m:int", lambda m: 0 <= m and m < len(_it1) and _it1[m].type == 1)',
+                                   'has_addr_type(service, 28) == exists("m:int", lambda m: 0 <= m and m < len(_it1) and _it1[m].type == 28)'],
+                              modifies=['answers', 'additionals', 'seen_types', 'known_answers._lookup']),
+                      2: Loop(inv=[KEYS, 'rrset_ok(known_answers)', 'forall("i:ident", lambda i: implies(old(answer_set.has(i)), answer_set.has(i)))',
+                                   (NEWA % '_k0 + 1')],
+                              modifies=['answer_set'])})
+    # ---- the dispatch ------------------------------------------------------------------------------------------------------------------------
+    S0 = 'services[0]'
+    KN_SRV = KNOWN % ('ident(%s._dns_service_cache)' % S0, '%s.host_ttl' % S0)
+    KN_TXT = KNOWN % ('ident(%s._dns_text_cache)' % S0, '%s.other_ttl' % S0)
+    R.contract(Q, 'QueryHandler._answer_question', P,
+               params={'question': 'DNSQuestion', 'strategy_type': 'int', 'types': 'list[str]', 'services': 'list[ServiceInfo]', 'known_answers': 'DNSRRSet'},
+               returns=AT,
+               requires=[SVC_OK, 'question is not None', 'known_answers is not None and rrset_ok(known_answers)', '0 <= strategy_type and strategy_type <= 4',
+                         'implies(strategy_type >= 3, len(services) == 1)'],
+               modifies=[m for m in MODS if m != 'answer_set'],
+               ensures=[KEYS.replace('answer_set', 'result'), 'rrset_ok(known_answers)',
+                        # type enumeration
+                        'implies(strategy_type == 0, %s and %s)' % ((NEWE % ('len(types)', EI)).replace('not old(answer_set.has(i))', 'True').replace('answer_set', 'result'),
+                                                                    (ALLE % ('len(types)', KNOWN % (EI, '4500'), EI)).replace('answer_set', 'result')),
+                        # PTR: the pointers of the given services, each with its own SRV, TXT and address/NSEC records as additionals
+                        'implies(strategy_type == 1, forall("i:ident", lambda i: implies(result.has(i), exists("j:int", lambda j: 0 <= j and j < len(services) '
+                        '   and i == %s and cls_is(result.keyobj(i), DNSPointer) and result.keyobj(i).ttl == services[j].other_ttl '
+                        '   and as_(result.keyobj(i), DNSPointer).alias == services[j]._name and not result.keyobj(i).unique))))' % PI,
+                        'implies(strategy_type == 1, forall("j:int", lambda j: implies(0 <= j and j < len(services) and not %s, result.has(%s))))'
+                        % (KNOWN % (PI, 'services[j].other_ttl'), PI),
+                        # SRV: the service's own SRV record with the host TTL and the cache-flush class, unless known
+                        'implies(strategy_type == 3, %s._dns_service_cache is not None and forall("i:ident", lambda i: implies(result.has(i), '
+                        '   result.keyobj(i) is %s._dns_service_cache)))' % (S0, S0),
+                        'implies(strategy_type == 3 and not %s, result.has(ident(%s._dns_service_cache)))' % (KN_SRV, S0),
+                        # TXT likewise, with the other TTL and no additionals
+                        'implies(strategy_type == 4, %s._dns_text_cache is not None and forall("i:ident", lambda i: implies(result.has(i), '
+                        '   result.keyobj(i) is %s._dns_text_cache)))' % (S0, S0),
+                        'implies(strategy_type == 4 and not %s, result.has(ident(%s._dns_text_cache)))' % (KN_TXT, S0)])
+
+
+def _c_ptrid(name, alias):
+    from pyvc.concrete import IdentV, mk_rdata
+    return IdentV(3, name.lower(), 12, 1, mk_rdata(('alias_key',), (alias.lower(),)))
+
+
+def install_answer_generators(R):
+    from contracts.registry_model import mk_registry
+    from zeroconf._dns import DNSRRSet, DNSPointer
+    I = 'zeroconf._services.info'
+
+    def g_info(g):
+        infos = []
+        while not infos:
+            infos = list(mk_registry(g)._services.values())
+        s = g.rng.choice(infos)
+        for nm in ('dns_pointer', 'dns_service', 'dns_text'):
+            if g.rng.random() < 0.4:
+                getattr(s, nm)()            # memo filled by a real earlier call
+        return s
+
+    def g_builder(g):
+        s = g_info(g)
+        return {'self': s, 'override_ttl': g.rng.choice([None, None, 0, 7, 120])}
+    for nm in ('dns_pointer', 'dns_service', 'dns_text'):
+        R.generators[(I, 'ServiceInfo.' + nm)] = g_builder
+        R.generators[(I, 'ServiceInfo._' + nm)] = g_builder
+
+    def g_setname(g):
+        s = g_info(g)
+        return {'self': s, 'name': g.rng.choice(['z.', 'A.', 'q.']) + s.type}
+    R.generators[(I, 'ServiceInfo.name.setter')] = g_setname
+
+    def g_known(g, services):
+        recs = []
+        for s in services:
+            if g.rng.random() < 0.6:
+                p = s.dns_pointer()
+                nm, al = (p.name.upper(), p.alias.upper()) if g.rng.random() < 0.3 else (p.name, p.alias)
+                for _ in range(g.rng.choice([1, 1, 2])):
+                    recs.append(DNSPointer(nm, 12, 1, g.rng.choice([p.ttl, p.ttl // 2, p.ttl // 2 + 1, 1, 0]), al, 0.0))
+        g.rng.shuffle(recs)
+        return DNSRRSet(recs)
+
+    def g_ptr(g):
+        h = mk_handler(g)
+        services = [s for s in h.registry._services.values() if g.rng.random() < 0.8]
+        return {'self': h, 'services': services, 'answer_set': {}, 'known_answers': g_known(g, services)}
+    R.generators[(Q, 'QueryHandler._add_pointer_answers')] = g_ptr
+
+    def g_addr(g):
+        from zeroconf._dns import DNSAddress
+        h = mk_handler(g)
+        services = [s for s in h.registry._services.values() if g.rng.random() < 0.8]
+        recs = []
+        for s in services:
+            for a in s._dns_addresses(None, __import__('zeroconf')._utils.net.IPVersion.All):
+                if g.rng.random() < 0.5:
+                    recs.append(DNSAddress(a.name.upper() if g.rng.random() < 0.3 else a.name, a.type, 1, g.rng.choice([a.ttl, a.ttl // 2, a.ttl // 2 + 1, 0]), a.address))
+        return {'self': h, 'services': services, 'answer_set': {}, 'known_answers': DNSRRSet(recs), 'type_': g.rng.choice([1, 28])}
+    R.generators[(Q, 'QueryHandler._add_address_answers')] = g_addr
+
+    ENUMN = '_services._dns-sd._udp.local.'
+
+    def g_known_types(g, types):
+        recs = []
+        for t in types:
+            if g.rng.random() < 0.6:
+                recs.append(DNSPointer(ENUMN if g.rng.random() < 0.7 else ENUMN.upper(), 12, 1, g.rng.choice([4500, 2250, 2251, 1]),
+                                       t if g.rng.random() < 0.7 else t.upper(), 0.0))
+        return DNSRRSet(recs)
+
+    def g_enum(g):
+        h = mk_handler(g)
+        types = [t for t in ['_x._tcp.local.', '_y._udp.local.', '_X._tcp.local.', '_z._tcp.local.'] if g.rng.random() < 0.6]
+        return {'self': h, 'types': types, 'answer_set': {}, 'known_answers': g_known_types(g, types)}
+    R.generators[(Q, 'QueryHandler._add_service_type_enumeration_query_answers')] = g_enum
+
+    def g_answer(g):
+        from zeroconf._dns import DNSQuestion, DNSService, DNSText
+        names = ['_services._dns-sd._udp.local.', '_x._tcp.local.', '_X._TCP.local.', 'a._x._tcp.local.', 'A._X._tcp.local.', 'host.local.', 'h2.local.']
+        for _ in range(50):
+            h = mk_handler(g)
+            q = DNSQuestion(g.rng.choice(names), g.rng.choice([12, 1, 28, 33, 16, 255]), 1)
+            strategies = h._get_answer_strategies(q)
+            if strategies:
+                break
+        else:
+            raise KeyError('no strategy found')
+        st = g.rng.choice(strategies)
+        if st.strategy_type == 0:
+            known = g_known_types(g, st.types)
+        elif st.strategy_type == 1:
+            known = g_known(g, st.services)
+        elif st.strategy_type == 2:
+            known = DNSRRSet([])
+        else:
+            s0 = st.services[0]
+            rec = s0.dns_service() if st.strategy_type == 3 else s0.dns_text()
+            recs = []
+            if g.rng.random() < 0.6:
+                half = int(rec.ttl) // 2
+                ttl = g.rng.choice([rec.ttl, half, half + 1, 0])
+                if st.strategy_type == 3:
+                    recs.append(DNSService(rec.name.upper() if g.rng.random() < 0.3 else rec.name, 33, 1, ttl, rec.priority, rec.weight, rec.port, rec.server, 0.0))
+                else:
+                    recs.append(DNSText(rec.name, 16, 1, ttl, rec.text, 0.0))
+            known = DNSRRSet(recs)
+        return {'self': h, 'question': q, 'strategy_type': st.strategy_type, 'types': st.types, 'services': st.services, 'known_answers': known}
+    R.generators[(Q, 'QueryHandler._answer_question')] = g_answer
+    return g_known
+
+
+def _with(st, s):
+    s2 = st.fork()
+    s2.spec = True
+    s2.locals = dict(st.locals)
+    s2.locals['s'] = s
+    return s2
+
+
 def install_rrset_generators(R):
     def g_rr(g):
         from zeroconf._dns import DNSRRSet
